@@ -465,6 +465,12 @@ theorem C17_seq_counterexample_unfold_after_index :
     (WTs wMapIndexUnfold.ss (getOk (fromAST wMapIndexUnfold.ss)) = true) ∧
     isOk wMapIndexUnfold.run = true ∧ WTs wMapIndexUnfold.ss (getOk wMapIndexUnfold.run) = false := by decide
 
+/-- `struct_fields_as_options` after `array_to_append`: the new options assign `items.x`, a path
+    through an array (the sibling action `struct_fields_as_arguments` wraps that case in an envelope) -/
+theorem C17_seq_counterexample_sf_opts_after_append :
+    (WTs wSfOptsAfterAppend.ss (getOk (fromAST wSfOptsAfterAppend.ss)) = true) ∧
+    isOk wSfOptsAfterAppend.run = true ∧ WTs wSfOptsAfterAppend.ss (getOk wSfOptsAfterAppend.run) = false := by decide
+
 /-! ## frame at the level of the whole rewriter -/
 
 /-- the property at full strength for the smallest case — no rule at all: nothing changes -/
